@@ -4,7 +4,7 @@
 # 1. applies the patch, runs the whole existing test suite (expect only the known root failure)
 # 2. runs the demonstration with the patch (must FAIL), reverts, runs it again (must PASS)
 id=$1; patch=$2; demo=$3; shift 3; feat="$*"
-wt=/tmp/seed/$id/repo
+wt=${SEED_ROOT:-/tmp/seed}/$id/repo
 cd $wt || exit 2
 git checkout -q -- src 2>/dev/null
 git apply --check "$patch" || { echo "PATCH DOES NOT APPLY"; exit 2; }
